@@ -93,3 +93,14 @@ Proof. vm_compute. right. left. reflexivity. Qed.
 (* hypotheses of clean_text_is_split_at_its_keys *)
 Example ex_clean_pieces : clean ex_pfx 0 2 [mkPiece [34] 1 2; mkPiece [34; 125] 0 0].
 Proof. apply clean_cons; try reflexivity; try lia. apply clean_last. reflexivity. Qed.
+
+(* the dual-package situation: index 2 = node_modules/dual/module.js, its
+   secondary node_modules/dual/main.js was visited as index 3 *)
+From V Require Import C19.Scan C19.ScanProofs.
+Definition ex_paths (i : Z) : bytes := nth (Z.to_nat i) [b "entry.js"; b "other.js"; b "node_modules/dual/module.js"; b "node_modules/dual/main.js"] [].
+Definition ex_rec : irec := mkRec (Some 2) true (Some (b "/w/node_modules/dual/main.js")) (b "dual") (b "import-statement") [].
+Definition ex_visited : list (bytes * Z) := [(b "/w/entry.js", 0); (b "/w/node_modules/dual/main.js", 3)].
+Example ex_final_target : final_target ex_visited ex_rec = Some 3
+  /\ ii_path (import_of ex_paths ex_visited ex_rec) = b "node_modules/dual/main.js"
+  /\ final_target [] ex_rec = Some 2.
+Proof. repeat split; vm_compute; reflexivity. Qed.
